@@ -399,7 +399,14 @@ class Gen:
                 e = ("read", ty, ref)
             else:
                 e = self.gen_expr(env, P(self.pick_prim()), 2)
-            out.append(("print", [e, ("str", None, b"\n")]))
+            if r.random() < 0.25:
+                # a label in front of the value: string literals next to a formatted argument must come out as written, also
+                # when they hold what the C formatting function underneath would read as a directive
+                label = r.choice([b"v=", b"100% ", b"%d ", b"%s|", b"50%%: ", b"[", b"% ", b"x%5"])
+                out.append(("print", [("str", None, label), e, ("str", None, b"\n")]))
+                self.hit("stmt:print:labelled")
+            else:
+                out.append(("print", [e, ("str", None, b"\n")]))
             env.effectful = True
             self.hit("stmt:print:" + e[1][1])
         elif c == "block":
